@@ -1,18 +1,43 @@
-import GcArena.Proofs.InvRun
+import GcArena.Proofs.DynCompose
+import GcArena.Props.C14
+import GcArena.Props.C02
 /-!
-# C14 (companion) — composition of the DynamicRootSet slot-table theorems with the collector
+# C14 (companion) — the DynamicRootSet slot table composed with the collector, as theorems
 
-The set object is an ordinary object of the collector model whose traced slots are
-`DynRoots.Slots.traced`; `stash` is `backward_barrier(set, Some(root))` followed by the slot store.
-`GcArena.C14.traced_while_handle` (Props/C14.lean) shows that the set object reports the stashed
-pointer while a handle exists; the theorem here shows what the collector does with a pointer that
-an accessible object reports: it, and everything strongly reachable from it, is kept — in every
-state of every history, in every phase.  Together: a stashed object and its closure survive every
-collection while a handle exists.
+"An object stashed in a DynamicRootSet that is reachable from the root, and everything reachable
+from it, survives every collection while at least one DynamicRoot handle for it (the original or
+any clone) exists, and becomes collectable once the last such handle is dropped."
+
+Props/C14.lean proves the slot-table half (`DynRoots`: the table holds exactly the pointers of the
+live handles); the collector development proves what happens to pointers an accessible object
+reports (`inv_run`, C01, C02).  Here the two are **one system** (`GcArena.DynCompose.Sys`,
+Proofs/DynCompose.lean): an arena, a slot-table state, and for every set the heap object that is its
+`Gc<Inner>`; every coupled operation (`COp`) is a `DynRoots.Op` paired with a list of existing
+`GcArena.Op`s — `stash` = `backward_barrier(set, Some(r))` + raw slot store, dropping the last
+handle of a slot = a barrier-free, pointer-free clearing of the slot (outside any callback, also
+between two collection increments), interleaved with arbitrary collector-model ops.
+
+* `coupled_run` — the coupling relation `Coupled` (the set object is allocated, undestructed, and
+  its slot `i` holds `r` strongly iff table slot `i` is occupied by `r`) holds after **every**
+  coupled operation sequence, and both sides are runs of the two existing models.
+* `stashed_survives_while_handle` — first half of the property, with no hypothesis about slots.
+* `not_in_set_after_last_drop`, `collectable_after_last_drop` — second half.
+* `fetch_is_the_stashed_object`, `fetch_holds` — `fetch` returns the content of the set object's slot.
+* `drop_outside_callback_net_effect`, `stash_net_effect` — what the encodings do to the arena.
+
+What is assumed / encoded — **restrictions R1–R6 of Proofs/DynCompose.lean**: one arena; every set
+object is stored directly in a root slot that is never overwritten (so it is strongly reachable
+from the root and never collected; no `destroySet`, no arena drop in coupled histories); the set
+object is allocated with a fixed number `cap` of slots and a `stash` needing index `≥ cap` is not a
+coupled operation; client stores into set objects are excluded (the field is private); a handle
+dropped while the client holds a `MarkedArena` forfeits the `finalize` call.  The two theorems
+`closure_accessible`, `stashed_survives` below are the earlier, hypothesis-carrying form and are
+what `stashed_survives_while_handle` instantiates.
 -/
 namespace GcArena.C14s
 
-open GcArena
+open GcArena GcArena.DynCompose
+open GcArena.DynRoots (Handle RootSet State)
 
 theorem closure_accessible {a : Arena} {p j : Nat} (hp : Accessible a p)
     (hj : AccessibleC a.ctx [] [Ptr.strong p] j) : Accessible a j := by
@@ -35,11 +60,252 @@ theorem stashed_survives (n : Nat) (ops : List Op) (halive : ((Arena.new n).run 
   have hpa : Accessible ((Arena.new n).run ops) p := .edge s p hs ⟨o, ho, hp⟩
   exact hi.safe_of_accessible (closure_accessible hpa hj)
 
-/-- Non-vacuity: object 0 plays the set object, holds 1 (the stashed pointer), which holds 2. -/
-example :
-    let ops : List Op := [.enter .mutateRoot, .alloc true [none], .alloc true [none], .alloc true [none],
-      .store .write 1 0 (some (.strong 2)), .store .write 0 0 (some (.strong 1)),
-      .rootStore 0 (some (.strong 0)), .leave]
-    ((Arena.new 1).run ops).alive = true ∧ ((Arena.new 1).run ops).root = [some (.strong 0)] := by decide
+/-! ## The coupling relation is an invariant -/
+
+/-- **`coupled_run`.**  After every coupled operation sequence from the initial coupled state (a
+fresh arena with `n` root slots, `DynRoots.State.init`, no sets — sets are created by the coupled
+op `newSet`, which allocates the set object and stores it in a root slot): both sides are runs of
+the two existing models, and every set object mirrors its slot table. -/
+theorem coupled_run (n : Nat) (ops : List COp) : Coupled n ((Sys.init n).run ops) :=
+  (Coupled.init n).run ops
+
+/-- `Coupled`, spelled out for one alive set: the root slot holds the set object; the set object is
+allocated, undestructed, has `cap` slots; **slot `i` is `some (strong r)` iff table slot `i` is
+`Occupied { root = r, .. }`**, else `none`; hence its strong slots are exactly `Slots.traced`. -/
+theorem set_object_mirrors_table (n : Nat) (ops : List COp) (S : Sys) (hS : S = (Sys.init n).run ops)
+    (s : Nat) (rs : RootSet) (hl : S.d.liveSet s = some rs) :
+    ∃ l o, S.loc[s]? = some l ∧ S.a.root[l.slot]? = some (some (.strong l.id)) ∧
+      S.a.ctx.heap.get l.id = some o ∧ o.live = true ∧ o.slots.length = l.cap ∧
+      rs.slots.slots.length ≤ l.cap ∧
+      (∀ i r : Nat, o.slots[i]? = some (some (Ptr.strong r)) ↔
+        ∃ c, rs.slots.slots[i]? = some (DynRoots.Slot.occupied r c)) ∧
+      (∀ i : Nat, i < l.cap →
+        (o.slots[i]? = some none ↔ ∀ r c, rs.slots.slots[i]? ≠ some (DynRoots.Slot.occupied r c))) ∧
+      (∀ p, some (Ptr.strong p) ∈ o.slots ↔ p ∈ rs.slots.traced) := by
+  subst hS
+  have hc := coupled_run n ops
+  obtain ⟨hsets, _⟩ := DynRoots.liveSet_eq_some.1 hl
+  have hlt : s < ((Sys.init n).run ops).loc.length := by
+    rw [hc.len]; exact (List.getElem?_eq_some_iff.1 hsets).1
+  obtain ⟨hh, hle⟩ := hc.sets s _ rs (List.getElem?_eq_getElem hlt) hsets
+  obtain ⟨o, ho, hlive, _, hslots⟩ := hh.obj
+  refine ⟨_, o, List.getElem?_eq_getElem hlt, hh.root, ho, hlive, by rw [hslots, mirror_length], hle,
+    ?_, ?_, ?_⟩
+  · intro i r
+    rw [hslots]
+    constructor
+    · intro hi
+      have hic : i < (((Sys.init n).run ops).loc[s]).cap := by
+        have := (List.getElem?_eq_some_iff.1 hi).1; rwa [mirror_length] at this
+      rw [mirror_get hic] at hi
+      cases ht : rs.slots.slots[i]? with
+      | none => rw [ht] at hi; simp [image] at hi
+      | some x =>
+        rw [ht] at hi
+        cases x with
+        | vacant nf => simp [image] at hi
+        | occupied r' c => simp [image] at hi; subst hi; exact ⟨c, rfl⟩
+    · rintro ⟨c, hv⟩
+      have hil : i < rs.slots.slots.length := (List.getElem?_eq_some_iff.1 hv).1
+      rw [mirror_get (by omega), hv]; rfl
+  · intro i hi
+    rw [hslots, mirror_get hi]
+    cases ht : rs.slots.slots[i]? with
+    | none => simp [image]
+    | some x =>
+      cases x with
+      | vacant nf => simp [image]
+      | occupied r' c => simp [image]
+  · intro p; rw [hslots]; exact mem_mirror hle
+
+/-! ## First half: a stashed object survives while a handle exists -/
+
+/-- Every set object is strongly reachable from the root (restriction R2 makes this hold by
+construction; it is the property's premise "a DynamicRootSet that is reachable from the root"). -/
+theorem set_reachable (n : Nat) (ops : List COp) (S : Sys) (hS : S = (Sys.init n).run ops)
+    (s : Nat) (l : SetLoc) (hl : S.loc[s]? = some l) : StrongReach S.a l.id := by
+  subst hS
+  have hc := coupled_run n ops
+  have hs : s < ((Sys.init n).run ops).d.sets.length := by
+    rw [← hc.len]; exact (List.getElem?_eq_some_iff.1 hl).1
+  exact (hc.sets s l _ hl (List.getElem?_eq_getElem hs)).1.reach
+
+/-- **`stashed_survives_while_handle`.**  In every state of every coupled history — any
+interleaving of `newSet` / `stash` / `clone` / `dropHandle` / `fetch` with allocation, stores,
+barriers and collection calls of every kind, in every phase: if `h` is a live handle of an alive
+set, then the stashed object `h.ptr` is strongly reachable from the root, and it and everything
+strongly reachable from it is allocated, undestructed and not condemned by the running sweep.
+No hypothesis about slots: that the set object holds `h.ptr` is `Coupled` + `C14.traced_while_handle`. -/
+theorem stashed_survives_while_handle (n : Nat) (ops : List COp) (S : Sys)
+    (hS : S = (Sys.init n).run ops) (h : Handle) (hm : h ∈ S.d.handles) (rs : RootSet)
+    (hl : S.d.liveSet h.set = some rs) :
+    StrongReach S.a h.ptr ∧ ∀ j, AccessibleC S.a.ctx [] [Ptr.strong h.ptr] j → Safe S.a.ctx j := by
+  obtain ⟨l, o, hloc, _, ho, _, _, _, _, _, hmem⟩ := set_object_mirrors_table n ops S hS h.set rs hl
+  have hc : Coupled n S := by rw [hS]; exact coupled_run n ops
+  have htr : h.ptr ∈ rs.slots.traced := C14.traced_while_handle S.dops S.d hc.dyn h hm rs hl
+  have hp : some (Ptr.strong h.ptr) ∈ o.slots := (hmem h.ptr).2 htr
+  have hreach := set_reachable n ops S hS h.set l hloc
+  refine ⟨.edge l.id h.ptr hreach ⟨o, ho, hp⟩, ?_⟩
+  have harena := hc.arena
+  have halive : ((Arena.new n).run S.aops).alive = true := by rw [← harena]; exact hc.alive
+  have := stashed_survives n S.aops halive l.id h.ptr o
+    (by rw [← harena]; exact hreach.accessible) (by rw [← harena]; exact ho) hp
+  rw [← harena] at this
+  exact this
+
+/-! ## Second half: collectable once the last handle is dropped -/
+
+/-- Strongly reachable from the root by a path that does not use the edge `x → p`. -/
+inductive ReachAvoiding (c : Ctx) (root : List Slot) (x p : Nat) : Nat → Prop
+  | root (t) : some (Ptr.strong t) ∈ root → ReachAvoiding c root x p t
+  | edge (i t) : ReachAvoiding c root x p i → StrongEdge c i t → ¬ (i = x ∧ t = p) →
+      ReachAvoiding c root x p t
+
+/-- Once no live handle of set `s` has pointer `p`, the set object holds `p` in none of its slots
+(`C14.untraced_after_last_drop` + `Coupled`). -/
+theorem not_in_set_after_last_drop (n : Nat) (ops : List COp) (S : Sys) (hS : S = (Sys.init n).run ops)
+    (s p : Nat) (rs : RootSet) (hl : S.d.liveSet s = some rs)
+    (hnone : ∀ h ∈ S.d.handles, h.set = s → h.ptr ≠ p) (l : SetLoc) (hloc : S.loc[s]? = some l)
+    (o : Obj) (ho : S.a.ctx.heap.get l.id = some o) : some (Ptr.strong p) ∉ o.slots := by
+  obtain ⟨l', o', hloc', _, ho', _, _, _, _, _, hmem⟩ := set_object_mirrors_table n ops S hS s rs hl
+  rw [hloc] at hloc'; cases hloc'
+  rw [ho] at ho'; cases ho'
+  have hc : Coupled n S := by rw [hS]; exact coupled_run n ops
+  intro hp
+  exact C14.untraced_after_last_drop S.dops S.d hc.dyn s p rs hl hnone ((hmem p).1 hp)
+
+/-- **`collectable_after_last_drop`.**  Outside callbacks, once no live handle of set `s` has pointer
+`p`: if `p` is not strongly reachable from the root by any route other than the edge
+"set object of `s` → `p`", then `p` is not strongly reachable at all, and after two
+`arena.finish_cycle()` calls (coupled ops `fc`) `p` is no longer an allocated undestructed object
+(`C02.exactness`); the two calls touch neither the slot tables nor the handles. -/
+theorem collectable_after_last_drop (n : Nat) (ops : List COp) (S : Sys) (hS : S = (Sys.init n).run ops)
+    (s p : Nat) (rs : RootSet) (hl : S.d.liveSet s = some rs)
+    (hnone : ∀ h ∈ S.d.handles, h.set = s → h.ptr ≠ p) (l : SetLoc) (hloc : S.loc[s]? = some l)
+    (hcb : S.a.cb = none) (hother : ¬ ReachAvoiding S.a.ctx S.a.root l.id p p) :
+    ¬ StrongReach S.a p ∧
+    ((S.step fc).step fc).a.ctx = C02.finishCycle2 S.a.ctx S.a.root ∧
+    ((S.step fc).step fc).d = S.d ∧
+    ¬ ∃ o, ((S.step fc).step fc).a.ctx.heap.get p = some o ∧ o.live = true := by
+  have hc : Coupled n S := by rw [hS]; exact coupled_run n ops
+  have hnot := not_in_set_after_last_drop n ops S hS s p rs hl hnone l hloc
+  have havoid : ∀ j, StrongReach S.a j → ReachAvoiding S.a.ctx S.a.root l.id p j := by
+    intro j hj
+    induction hj with
+    | root t ht => exact .root t ht
+    | temp t ht => cases ht
+    | edge i t _ e ih =>
+      refine .edge i t ih e ?_
+      rintro ⟨rfl, rfl⟩
+      obtain ⟨o, ho, hp⟩ := e
+      exact hnot o ho hp
+  have hunreach : ¬ StrongReach S.a p := fun hr => hother (havoid p hr)
+  obtain ⟨c1, r1, cb1, d1, _⟩ := hc.finishCycle hcb
+  have hc1 : Coupled n (S.step fc) := hc.step fc
+  obtain ⟨c2, _, _, d2, _⟩ := hc1.finishCycle cb1
+  have hctx : ((S.step fc).step fc).a.ctx = C02.finishCycle2 S.a.ctx S.a.root := by
+    rw [c2, c1, r1]; rfl
+  refine ⟨hunreach, hctx, d2.trans d1, ?_⟩
+  rw [hctx]
+  intro hex
+  exact hunreach ((C02.exactness _ _ (cinv0 hc.inv hcb) p).mp hex)
+
+/-! ## fetch -/
+
+/-- **`fetch_is_the_stashed_object`.**  For a live handle `h` of the alive set `s` that issued it:
+`fetch` answers `h.ptr`, and `h.ptr` is what slot `h.index` of the set object holds
+(`C14.fetch_identity` + `Coupled`). -/
+theorem fetch_is_the_stashed_object (n : Nat) (ops : List COp) (S : Sys) (hS : S = (Sys.init n).run ops)
+    (s : Nat) (rs : RootSet) (h : Handle) (hl : S.d.liveSet s = some rs) (hm : h ∈ S.d.handles)
+    (hs : h.set = s) :
+    DynRoots.step S.d (.fetch s h) = .ok S.d (.ptr h.ptr) ∧
+    ∃ l o, S.loc[s]? = some l ∧ S.a.ctx.heap.get l.id = some o ∧
+      o.slots[h.index]? = some (some (.strong h.ptr)) := by
+  have hc : Coupled n S := by rw [hS]; exact coupled_run n ops
+  obtain ⟨hf, _, _, hocc, _⟩ := (C14.fetch_identity S.dops S.d hc.dyn s rs h hl hm).1 hs
+  obtain ⟨l, o, hloc, _, ho, _, _, _, hiff, _, _⟩ := set_object_mirrors_table n ops S hS s rs hl
+  exact ⟨hf, l, o, hloc, ho, (hiff h.index h.ptr).2 hocc⟩
+
+/-- The coupled `fetch` inside a callback: both reads of its encoding are accepted, the second one
+returns the stashed pointer (the client observes `s<h.ptr>`), that pointer is held by the callback
+afterwards — hence accessible and `Safe` — and neither the heap, the root nor the tables change. -/
+theorem fetch_holds (n : Nat) (ops : List COp) (S : Sys) (hS : S = (Sys.init n).run ops)
+    (s : Nat) (rs : RootSet) (h : Handle) (hl : S.d.liveSet s = some rs) (hm : h ∈ S.d.handles)
+    (hs : h.set = s) (hcb : S.a.cb ≠ none) :
+    (S.step (.fetch s h)).a.holds (.strong h.ptr) = true ∧
+    (S.step (.fetch s h)).a.ctx = S.a.ctx ∧ (S.step (.fetch s h)).a.root = S.a.root ∧
+    (S.step (.fetch s h)).d = S.d ∧
+    (∃ l, S.loc[s]? = some l ∧
+      ((S.a.step (.readRoot l.slot)).1.step (.read l.id h.index)).2 = Arena.showPtr (.strong h.ptr)) ∧
+    Safe (S.step (.fetch s h)).a.ctx h.ptr := by
+  have hc : Coupled n S := by rw [hS]; exact coupled_run n ops
+  obtain ⟨hsets, _⟩ := DynRoots.liveSet_eq_some.1 hl
+  obtain ⟨_, l, o, hloc, ho, hslot⟩ := fetch_is_the_stashed_object n ops S hS s rs h hl hm hs
+  obtain ⟨hh, _⟩ := hc.sets s l rs hloc hsets
+  have hq : (mirror l.cap rs.slots.slots)[h.index]? = some (some (.strong h.ptr)) := by
+    obtain ⟨o', ho', _, _, hs'⟩ := hh.obj
+    rw [ho] at ho'; cases ho'
+    rw [← hs']; exact hslot
+  obtain ⟨f1, f2, _, _, f5, _, f7⟩ := fetch_net hc.alive hcb hh hq
+  have hcs : S.a.cb.isSome = true := by cases hx : S.a.cb <;> simp_all
+  have hcont : DynRoots.containsB s h = true := by simp [DynRoots.containsB, hs]
+  have e : S.step (.fetch s h) = (S.doA (fetchOps l h)).doD (.fetch s h) := by
+    simp [Sys.step, Sys.fetchLike, hloc, hc.alive, hcs, hm, hl, hcont]
+  have hc' : Coupled n (S.step (.fetch s h)) := hc.step _
+  rw [e] at hc' ⊢
+  refine ⟨f5, f1, f2, DynRoots.next_fetch _ _ _, ⟨l, hloc, f7⟩, ?_⟩
+  exact hc'.inv.ptrOK_of_holds (p := .strong h.ptr) f5
+
+/-! ## What the encodings do to the arena -/
+
+/-- Dropping the last handle of a slot **outside any callback** (in particular between two
+collection increments, in any phase): the collector-side encoding — a pointer-free `mutate`
+callback doing a barrier-less `.raw` store of `None` — is accepted, and its net effect on the arena
+is exactly clearing that slot of the set object: colours, gray queues, phase, metrics, root, cover
+and callback state are unchanged. -/
+theorem drop_outside_callback_net_effect (n : Nat) (ops : List COp) (S : Sys)
+    (hS : S = (Sys.init n).run ops) (h : Handle) (hm : h ∈ S.d.handles) (rs : RootSet) (r : Nat)
+    (hl : S.d.liveSet h.set = some rs) (hv : rs.slots.slots[h.index]? = some (.occupied r 0))
+    (hcb : S.a.cb = none) :
+    ∃ l, S.loc[h.set]? = some l ∧
+      (S.step (.dropHandle h)).a =
+        { S.a with marked := false, ctx := Arena.setSlot S.a.ctx l.id h.index none } ∧
+      (S.step (.dropHandle h)).d = DynRoots.next S.d (.dropHandle h) := by
+  have hc : Coupled n S := by rw [hS]; exact coupled_run n ops
+  obtain ⟨hsets, _⟩ := DynRoots.liveSet_eq_some.1 hl
+  have hlt : h.set < S.loc.length := by
+    rw [hc.len]; exact (List.getElem?_eq_some_iff.1 hsets).1
+  have hloc := List.getElem?_eq_getElem hlt
+  obtain ⟨hh, hle⟩ := hc.sets h.set _ rs hloc hsets
+  have hidx : h.index < rs.slots.slots.length := (List.getElem?_eq_some_iff.1 hv).1
+  refine ⟨_, hloc, ?_, ?_⟩
+  · have e : (S.step (.dropHandle h)).a = S.a.run (clearOps S.a S.loc[h.set] h.index) := by
+      simp [Sys.step, hm, hloc, hl, hv, Sys.doA, Sys.doD]
+    rw [e]
+    exact clear_net_outside hc.inv hcb hh (by rw [mirror_length]; omega)
+  · simp [Sys.step, hm, hloc, hl, hv, Sys.doA, Sys.doD]
+
+/-- `stash` inside a callback holding `r`, within capacity: the three collector-side ops are accepted
+(the `.raw` store is licensed by the cover the barrier has just issued) and their net effect on the
+context is `backward_barrier(set, Some(r))` followed by the slot store. -/
+theorem stash_net_effect (n : Nat) (ops : List COp) (S : Sys) (hS : S = (Sys.init n).run ops)
+    (s r idx : Nat) (rs : RootSet) (sl : DynRoots.Slots) (l : SetLoc) (hloc : S.loc[s]? = some l)
+    (hl : S.d.liveSet s = some rs) (ha : rs.slots.add r = .ok (sl, idx)) (hcb : S.a.cb ≠ none)
+    (hr : S.a.holds (.strong r) = true) (hidx : idx < l.cap) :
+    (S.step (.stash s r)).a.ctx =
+      Arena.setSlot (S.a.ctx.backwardBarrier l.id (some r)) l.id idx (some (.strong r)) ∧
+    (S.step (.stash s r)).a.root = S.a.root ∧
+    (S.step (.stash s r)).a.cover = .pair l.id r :: S.a.cover ∧
+    (S.step (.stash s r)).d = DynRoots.next S.d (.stash s r) := by
+  have hc : Coupled n S := by rw [hS]; exact coupled_run n ops
+  obtain ⟨hsets, _⟩ := DynRoots.liveSet_eq_some.1 hl
+  obtain ⟨hh, _⟩ := hc.sets s l rs hloc hsets
+  obtain ⟨nctx, nroot, _, _, ncover, _⟩ :=
+    stash_net hc.alive hcb hh hr (idx := idx) (by rw [mirror_length]; exact hidx)
+  have hcs : S.a.cb.isSome = true := by cases hx : S.a.cb <;> simp_all
+  have e : S.step (.stash s r) = (S.doA (stashOps l r idx)).doD (.stash s r) := by
+    simp [Sys.step, hloc, hl, ha, hc.alive, hcs, hr, hidx]
+  rw [e]
+  exact ⟨nctx, nroot, ncover, rfl⟩
 
 end GcArena.C14s
